@@ -69,6 +69,10 @@ def universe(name, nbars):
 def build(cfg):
     reset_clock()
     uni, L, delay, reward, rates, fees, nbars = cfg
+    threshold = 0.0
+    if uni.endswith(":thr"):
+        # a large no-trade threshold: repeating a decision trades nothing, so entries WITHOUT trades follow entries with trades
+        uni, threshold = uni[:-4], 0.2
     cs, evs, G, cash = universe(uni, nbars)
     evs = list(evs)
     first = cs[0]
@@ -92,7 +96,7 @@ def build(cfg):
     sink = []
     rec = Rec(sink)
     bf = BrokerFees(markup=0.01 if rates else 0.0, interest_rate=RATE, proportional=(1.0 / 64 if fees else 0.0), fixed=(1.0 if fees else 0.0))
-    env = TradingEnv(BoxPortfolio(cs, -1.0, 1.5), transmitter=tr, state=rec, latency=L, steps_delay=delay,
+    env = TradingEnv(BoxPortfolio(cs, -1.0, 1.5, margin=threshold), transmitter=tr, state=rec, latency=L, steps_delay=delay,
                      initial_cash=cash, broker_fees=bf, reward=make_reward(reward))
     return env, sink, cash
 
@@ -285,6 +289,21 @@ def run_sequence(env, sink, cash, cfg, seq):
                 msgs.append("transaction_costs() frame row %d differs from the entry" % k)
         if len(f_pre) != len(tr):
             msgs.append("frames have %d rows for %d entries" % (len(f_pre), len(tr)))
+        # burn=True discards the INITIAL entries without trades (cash-only start) and nothing else
+        lead = 0
+        while lead < len(tr) and not tr[lead].trades:
+            lead += 1
+        want_times = [tr[k].time for k in range(lead, len(tr))]
+        for nm, frame in (("net_liquidation_value", tr.net_liquidation_value(burn=True)), ("weights_target", tr.weights_target(burn=True)),
+                          ("weights_actual", tr.weights_actual(burn=True)), ("transaction_costs", tr.transaction_costs(burn=True, cumulative=False))):
+            if [t for t in frame.index] != want_times:
+                msgs.append("%s(burn=True) keeps %d rows, but %d entries follow the initial %d entries without trades"
+                            % (nm, len(frame), len(want_times), lead))
+        if want_times:
+            cum = tr.transaction_costs(burn=True, cumulative=True)
+            paid = sum(t.cost_of_commissions for k in range(len(tr)) for t in tr[k].trades)
+            if not close(cum["Broker fees"].iloc[-1], paid):
+                msgs.append("transaction_costs(burn=True) reports cumulative broker fees %r, the recorded trades paid %r" % (cum["Broker fees"].iloc[-1], paid))
     except Exception as ex:
         msgs.append("reporting frames raised %r" % (ex,))
     if reward == "simple" and not rates and not L and not msgs:
@@ -308,6 +327,10 @@ def units(tier):
                         if tier == "quick" and uni == "chain" and reward in ("log", "pnl") and L:
                             continue
                         out.append((uni, L, delay, reward, rates, fees, nbars))
+    # a no-trade threshold: idle entries in the middle of an episode
+    for delay in (0, 1):
+        for reward in ("simple", "log"):
+            out.append(("spot+fut:thr", 0, delay, reward, True, True, 6))
     # extreme single-step returns (|log return| > 2): rewards documented as unclipped must not be clipped
     for delay in (0, 1):
         for reward in REWARDS:
